@@ -1,4 +1,4 @@
-G='grpcgcp/gcp_multiendpoint.go'; I='grpcgcp/gcp_interceptor.go'; B='grpcgcp/gcp_balancer.go'; P='grpcgcp/gcp_picker.go'; M='grpcgcp/multiendpoint/multiendpoint.go'
+SP='spanner_prober/prober/proberlib.go'; SI='spanner_prober/prober/interceptors.go'; SM='spanner_prober/main.go'; E2E='e2e-checksum/main.go'; G='grpcgcp/gcp_multiendpoint.go'; I='grpcgcp/gcp_interceptor.go'; B='grpcgcp/gcp_balancer.go'; P='grpcgcp/gcp_picker.go'; M='grpcgcp/multiendpoint/multiendpoint.go'
 MUT={
  'c01-bind-overwrite': [(B,'''	if !ok {
 		gb.affinityMap[bindKey] = sc
@@ -216,4 +216,44 @@ MUT={
 				}
 				mp[method] = affinityCfg
 			}""")],
+ 'c18-backoff-no-clamp': [(SP,"""	if backoff > max {
+		backoff = max
+	}""","""	if backoff > max*2 {
+		backoff = max
+	}""")],
+ 'c18-contains': [(SI,"""		if !strings.HasPrefix(entry, gfeT4T7prefix) {""","""		if !strings.Contains(entry, gfeT4T7prefix) {""")],
+ 'c18-trailer-first': [(SI,"""	if len(headers[serverTimingKey]) > 0 {
+		serverTiming = headers[serverTimingKey]
+	} else if len(trailers[serverTimingKey]) > 0 {
+		serverTiming = trailers[serverTimingKey]""","""	if len(trailers[serverTimingKey]) > 0 {
+		serverTiming = trailers[serverTimingKey]
+	} else if len(headers[serverTimingKey]) > 0 {
+		serverTiming = headers[serverTimingKey]""")],
+ 'c18-regex-no-anchor': [(SM,"""	instanceDBRegex, err := regexp.Compile(`^[-_.a-zA-Z0-9]*$`)""","""	instanceDBRegex, err := regexp.Compile(`[-_.a-zA-Z0-9]*$`)""")],
+ 'c18-qps-lt': [(SM,"""	if *qps <= 0 || *qps > 1000 {""","""	if *qps < 0 || *qps > 1000 {""")],
+ 'c18-project-slash': [(SM,"""	projectRegex, err := regexp.Compile(`^[-_:.a-zA-Z0-9]*$`)""","""	projectRegex, err := regexp.Compile(`^[-_:./a-zA-Z0-9]*$`)""")],
+ 'c18-last-entry': [(SI,"""		return time.Duration(durationMillis) * time.Millisecond, nil
+	}
+	return 0, fmt.Errorf("no gfe latency response available")""","""		last = time.Duration(durationMillis) * time.Millisecond
+		found = true
+	}
+	if found {
+		return last, nil
+	}
+	return 0, fmt.Errorf("no gfe latency response available")"""),(SI,"""	var serverTiming []string
+""","""	var serverTiming []string
+	var last time.Duration
+	found := false
+""")],
+ 'c19-append': [(E2E,"""	newBytes := append(buffer.Bytes(), bytes...) // prepend""","""	newBytes := append(bytes, buffer.Bytes()...) // prepend""")],
+ 'c19-ieee': [(E2E,"""	crc32c := crc32.MakeTable(crc32.Castagnoli)""","""	crc32c := crc32.MakeTable(crc32.IEEE)""")],
+ 'c19-bigendian': [(E2E,"""	if err = buffer.EncodeFixed32(uint64(checksum)); err != nil {""","""	if err = buffer.EncodeFixed32(uint64(checksum>>24 | (checksum>>8)&0xff00 | (checksum<<8)&0xff0000 | checksum<<24)); err != nil {""")],
+ 'c19-wiretype': [(E2E,"""	checksumWireType = 5 // wire type is a 32-bit""","""	checksumWireType = 1 // wire type is a 32-bit""")],
+ 'c19-swallow-err': [(E2E,"""	bytes, err := c.protoCodec.Marshal(v)
+	if err != nil {
+		return bytes, err
+	}""","""	bytes, err := c.protoCodec.Marshal(v)
+	if err != nil && len(bytes) == 0 {
+		return bytes, err
+	}""")],
 }
